@@ -33,8 +33,10 @@ TOOL_NAME = "vsim"
 _MUTATOR_NAMES = frozenset(
     "append pop clear extend update add remove insert setdefault popitem discard appendleft popleft sort reverse".split()
 )
+# stores to something that could be shared, and entries into `with` blocks (a context manager that saves and
+# restores process-wide state — warnings filters, recursion limit, locale, cwd — opens a race window right there)
 _STORE_OPS = frozenset(
-    "STORE_ATTR STORE_SUBSCR STORE_GLOBAL DELETE_ATTR DELETE_SUBSCR DELETE_GLOBAL STORE_DEREF".split()
+    "STORE_ATTR STORE_SUBSCR STORE_GLOBAL DELETE_ATTR DELETE_SUBSCR DELETE_GLOBAL STORE_DEREF BEFORE_WITH".split()
 )
 
 
@@ -168,6 +170,12 @@ def compute_marks() -> dict[str, frozenset[int]]:
                     ins.opname in ("LOAD_ATTR", "LOAD_METHOD") and ins.argval in _MUTATOR_NAMES
                 ):
                     s.add(line)
+        # every statement directly inside a `with` body: whatever the context manager saved on entry and will put
+        # back on exit (warnings filters, a limit, a lock-free "current" pointer) is in its in-between state there
+        for node in ast.walk(ast.parse(src)):
+            if isinstance(node, ast.With | ast.AsyncWith):
+                for st in node.body:
+                    s.add(st.lineno)
     return {k: frozenset(v) for k, v in marks.items()}
 
 
@@ -176,10 +184,10 @@ def compute_marks() -> dict[str, frozenset[int]]:
 
 
 def op_key(op: dict) -> str:
-    return json.dumps(
-        [op["op"], op["text"], op.get("mode") or "exec", op.get("py_version") or None, bool(op.get("verbose"))],
-        ensure_ascii=True,
-    )
+    key = [op["op"], op["text"], op.get("mode") or "exec", op.get("py_version") or None, bool(op.get("verbose"))]
+    if op.get("warn"):
+        key.append("W-error")  # computed in a process that turns SyntaxWarning into an error (python -W error::SyntaxWarning)
+    return json.dumps(key, ensure_ascii=True)
 
 
 def file_name_for(text: str) -> str:
@@ -255,7 +263,13 @@ def execute_flood(op: dict) -> tuple:
     n_ok = n_err = 0
     tag = op["tag"]
     for i in range(op["n"]):
-        text = f"v{tag}_{i} = {i}\n" if i % 7 else f"v{tag}_{i} = ({i},\n {i} {i})\n"
+        # every lexical class gets a never-seen-before member: name, number, string, f-string, path, search path
+        if i % 7 == 0:
+            text = f"v{tag}_{i} = ({i},\n {i} {i})\n"
+        elif i % 7 == 1:
+            text = f"w{tag}_{i} = f'f{tag}_{i}{{v{i}}}' + p'/p{tag}_{i}' + `g{tag}_{i}.*`\n"
+        else:
+            text = f"v{tag}_{i} = 's{tag}_{i}' + {i}.{i} + \"t{tag}_{i}\"\n"
         try:
             XonshParser.parse_string(text, mode="exec" if i % 5 else "eval")
             n_ok += 1
@@ -320,6 +334,9 @@ def _golden_server_main(in_path: str, out_path: str) -> None:
     try:
 
         def one(op):
+            import warnings
+
+            warnings.simplefilter("error" if op.get("warn") else "ignore", SyntaxWarning)
             return execute_plain(op, scratch)[0]
 
         for op in ops:
@@ -339,7 +356,7 @@ def compute_golden(ops: list[dict], hashseed: str, jobs: int | None = None) -> d
 
     uniq: dict[str, dict] = {}
     for op in ops:
-        uniq.setdefault(op_key(op), {k: op.get(k) for k in ("op", "text", "mode", "py_version", "verbose")})
+        uniq.setdefault(op_key(op), {k: op.get(k) for k in ("op", "text", "mode", "py_version", "verbose", "warn")})
     items = list(uniq.values())
     jobs = max(1, min(jobs or kernel.JOBS, len(items) or 1))
     tmp = tempfile.mkdtemp(prefix="vsim-gold-")
@@ -449,7 +466,10 @@ class PCT(Policy):
         rng.shuffle(pr)
         self.prio = pr
         self.low = d - 1
-        self.cps = sorted(rng.randrange(1, max(2, horizon)) for _ in range(d - 1))
+        # half of the change points fall into the first steps of the run: first-use initialisation (lazily built
+        # tables, caches filled on the first call) happens there and nowhere else in the life of a process
+        self.cps = sorted(rng.randrange(1, 120) if rng.random() < 0.5 else rng.randrange(1, max(2, horizon))
+                          for _ in range(d - 1))
         self.biased = biased
         self.d = d
 
@@ -804,7 +824,10 @@ def run_schedule_task(task: dict) -> dict:
             policy: Policy = Follow(task["schedule"])
         else:
             rng = rng_for(*task["seed_parts"], "policy")
-            policy = make_policy(rng, len(threads), task.get("horizon", 20000), task.get("granularity", "line"))
+            if task.get("policy_hint") == "uniform-hot" and len(threads) > 1:
+                policy = Uniform(rng, rng.choice([1e-3, 1e-4]), rng.choice([0.1, 0.3, 0.5]))
+            else:
+                policy = make_policy(rng, len(threads), task.get("horizon", 20000), task.get("granularity", "line"))
         sim = ScheduleSim(threads, policy, _MARKS, task.get("cap", 5_000_000), scratch,
                           task.get("granularity", "line"))
         t0 = time.monotonic()
